@@ -28,6 +28,30 @@ static void enumerateAll(const std::function<void(const Spec &)> &f) {
           }
     }
   });
+  // medium-size designs (12..40 cells on 4..10 rows, several levels of the bin hierarchy): every 12th member of the grid, and
+  // every 36th with the reoptimisation windows and cost models away from the defaults
+  {
+    MediumCfg mc;
+    mc.polarities = false;
+    mc.stride = gThorough ? 4 : 12;
+    int k = 0;
+    enumerateMedium(mc, [&](const Spec &m) {
+      Spec s = m;
+      s.aux = 0;
+      f(s);
+      // every other one also at (9001, 11003) units per grid step: each cell area stays below 2^31, the total demand does not
+      if (k % 2 == 0) f(scaled(s, 9001, 11003));
+      if (k++ % 3 == 0) {
+        for (int variant = 0; variant < 3; ++variant) {
+          Spec d = s;
+          if (variant == 0) { d.devs.push_back({F_squareReoptSize, 3}); d.devs.push_back({F_lineReoptSize, 4}); d.devs.push_back({F_diagReoptSize, 3}); }
+          if (variant == 1) { d.devs.push_back({F_rlCostModel, 1}); d.devs.push_back({F_binSize, 2.0}); }
+          if (variant == 2) { d.devs.push_back({F_netModel, 2}); d.devs.push_back({F_binSize, 1.0}); d.effort = 6; }
+          f(d);
+        }
+      }
+    });
+  }
   // zero-area movable cells on every shape of the alphabet (rows at positive, negative and mixed coordinates, wide and tall areas),
   // unconnected or tied to a terminal above / below / beside the rows
   {
